@@ -282,10 +282,90 @@ def c14_rust(ctx):
     iter_vet(ctx, "G3", "identify_keywords:no-new-conflicts", conflict,
              [(("TokenSet::contains",), True), (("all_coincident_states_have_word",), True), (("has_same_conflict_status",), True)],
              const_ret_points(conflict, 1), "a keyword is kept only if, for every non-candidate token, the word token is already coincident or has the same conflict status")
+    c14_regex_threading(ctx, F)
+    c14_tie_break(ctx, F)
     fn = find_fn(ctx, F, "build_tables::identify_keywords", "G3")
     if fn:
         empty = [pt for pt, c, d in calls_named(fn, "TokenSet::new")]
         text_gate(ctx, "G3", fn, empty, [("no word token ⇒ no keywords", [(("is_none",), True)])], accept_desc="returning the empty keyword set")
+
+
+def c14_regex_threading(ctx, F):
+    """C14.S2: sequential composition in the regex → NFA expansion threads the continuation: once a
+    piece was emitted (its expansion returned true), the next piece emitted on that path must
+    continue into the state just created (`last_state_id()`), not into the caller's continuation."""
+    from taint import Taint
+    fn = find_fn(ctx, F, "NfaBuilder::expand_regex", "S2")
+    if not fn:
+        return
+    EMIT = ("expand_zero_or_one", "expand_one_or_more", "expand_zero_or_more", "expand_count", "NfaBuilder::expand_regex")
+
+    def is_emit(n):
+        return n.get("k") == "call" and any((n.get("fn") or "").endswith(x) for x in EMIT)
+    T = Taint(F, [fn], lambda n, f: is_emit(n)).run()
+    ns_ids = set(fn.ids_named("next_state_id"))
+    if not ns_ids:
+        ctx.bad("S2", "expand_regex:anchor", "parameter next_state_id not found")
+        return
+    emits = []
+    for pt, e in fn.points():
+        for n in own_walk(e):
+            if is_emit(n):
+                emits.append((pt, n))
+
+    class Thread(Monitor):
+        def elem(self, m, pt, e, s):
+            for n in own_walk(e):
+                if n.get("k") == "assign" and strip(n["l"]).get("k") == "ref" and strip(n["l"])["id"] in ns_ids:
+                    m = False
+            for p2, n in emits:
+                if p2 == pt:
+                    arg = strip(n["a"][-1])
+                    while arg.get("k") == "ref" and str(arg.get("name", "")).startswith("_") and fn.single_def(arg["id"]) is not None:
+                        arg = strip(fn.single_def(arg["id"]))
+                    if m and arg.get("k") == "ref" and arg.get("id") in ns_ids:
+                        return Viol("a second piece is expanded with the caller's continuation although the previous piece was emitted", pt)
+            return m
+
+        def edge(self, m, bid, edge, cond, truth, s):
+            if cond is not None and truth is not None and T.expr_tainted(cond, fn):
+                return bool(truth)
+            return m
+    # sequencing arms only: in the Alternation arm all alternatives deliberately share the continuation
+    starts = [e.to for b in fn.blocks.values() for e in b.succs if isinstance(e.lab, dict) and e.lab.get("name") in ("Repetition", "Concat")]
+    ctx.floor("sequencing arms (Repetition, Concat) of expand_regex", len(starts), 2)
+    v, s = None, None
+    for st in starts:
+        s = Search(fn, Thread(), budget=3000000)
+        v = s.run(False, start_block=st)
+        if v is not None:
+            break
+    ctx.floor("piece expansions in expand_regex", len(emits), 8)
+    if v is None:
+        ctx.ok("S2", "expand_regex:continuation-threaded", "whenever a piece was emitted, the next piece on that path continues into last_state_id() (%d expansion sites, %d states)" % (len(emits), s.states),
+               sample={"function": fn.name, "sites": len(emits)})
+    else:
+        ctx.bad("S2", "expand_regex:continuation-not-threaded", "expand_regex: at %s %s — the two pieces are alternatives instead of a sequence (e.g. `x{n,}` then matches exactly n repetitions)" % (fn.loc(v.pt), v.msg),
+                {"site": fn.loc(v.pt), "path": s.render_path(v.path)[-6:]})
+
+
+def c14_tie_break(ctx, F):
+    """C14.S1: the two places that decide which of several completed tokens wins use one function."""
+    ps = find_fn(ctx, F, "LexTableBuilder::populate_state", "S1")
+    if ps:
+        if calls_named(ps, "TokenConflictMap", "prefer_token"):
+            ctx.ok("S1", "populate_state:uses-prefer_token", "the lex table builder chooses a state's accepted token with TokenConflictMap::prefer_token, as the conflict analysis does")
+        else:
+            ctx.bad("S1", "populate_state:uses-prefer_token", "LexTableBuilder::populate_state no longer chooses the accepted token with TokenConflictMap::prefer_token: the generated lexer and the conflict "
+                    "analysis (token_conflicts.rs) can now disagree on which token wins a tie")
+    n = 0
+    for fn in F.fn_list:
+        if "token_conflicts" in fn.name and calls_named(fn, "prefer_token"):
+            n += 1
+    if n:
+        ctx.ok("S1", "token_conflicts:uses-prefer_token", "%d function(s) of the conflict analysis decide with prefer_token" % n)
+    else:
+        ctx.bad("S1", "token_conflicts:uses-prefer_token", "the conflict analysis no longer uses prefer_token")
 
 
 def c01_rust(ctx):
